@@ -9,6 +9,25 @@ ROOT = pathlib.Path(__file__).resolve().parent.parent
 
 # id -> (technique, level text, level_note, design_ref)
 CHECKS = {
+    "C01": (
+        "reference-model monitor on outputs: generated well-formed builder programs (and the repo's own builder tests via a HUGR_BIN shim) are run against the real builders and every serialized HUGR is checked by an independent JSON-level re-implementation of the validator rules",
+        "1500 (quick) / 40000 (thorough) type-directed, linearity-respecting builder programs over all six root kinds, nested to depth 3/5, "
+        "covering Ext/Dom/static/order edges, partially used multi-output ops, polymorphic and row-polymorphic calls, conditionals, tail "
+        "loops, five CFG shapes and every insert_* mode, are interpreted against the real builders; each emitted document is validated "
+        "against 16 rule families transcribed from hugr-core's validate.rs. A negative self-test proves every rule can fire. Held = no "
+        "rule violated on any observed program.",
+        "Trusted base: vf/oracles/validator.py + vf/oracles/wire.py (the `hugr validate` binary cannot be built offline), the program "
+        "generator's well-formedness by construction. Not covered: runtime_reqs inference, user-defined AsExtOp classes, TrackedDfg roots (see C15).",
+        "DESIGN.md §3 C01",
+    ),
+    "C06": (
+        "spec-table oracle evaluated on generator parameters vs what the real op objects report",
+        "For 16000 (quick) / 600000 (thorough) generated op instances of 23 kinds (all rows incl. empty, linear, nested; row-polymorphic "
+        "signatures with arity-changing instantiations) the outer/inner signature rows, every port kind and type (value, static and order "
+        "ports), num_out, nth_inputs/nth_outputs and Hugr.port_type are compared with a table computed from the descriptors alone.",
+        "Trusted: the spec table in vf/props/c06.py and vf/gen/types.py wire forms. runtime_reqs not compared; out-of-range offsets not queried.",
+        "DESIGN.md §3 C06",
+    ),
     "C16": (
         "exhaustive differential against range(n) semantics + output-count oracle from generator parameters on builder-returned handles",
         "All ints and positive-step slices in a box around [-n, n] for n = 0..6 (quick) / 0..9 (thorough) are applied to real handles and "
